@@ -158,7 +158,28 @@ func (d xDesc) table() (gtab.Type, int) {
 	return gtab.TypeGpos, 2
 }
 
+// xModelled: the extra kinds that have a model counterpart
+var xModelled = map[string]bool{"gsub41": true, "gpos21": true}
+
 func subEncX(d xDesc) (impl, fail string) {
+	impl, fail, _ = subEncX2(d)
+	return
+}
+
+func subEncX2(d xDesc) (impl, fail string, encOut []byte) {
+	impl, fail = subEncX1(d)
+	if impl == "ok" || (impl != "panic" && impl != "panic-len") {
+		st := d.build()
+		var enc []byte
+		var n int
+		guard(func() { enc = gtab.VerifC08Encode(st); n = gtab.VerifC08EncodeLen(st) })
+		impl = vlib.Str(vlib.L(vlib.Atom("ok"), vlib.Hex(enc), vlib.Int(n)))
+		encOut = enc
+	}
+	return
+}
+
+func subEncX1(d xDesc) (impl, fail string) {
 	st := d.build()
 	var enc []byte
 	var n int
@@ -702,15 +723,72 @@ func infoDescOf(items []vlib.Sx) (infoDesc, error) {
 	return d, nil
 }
 
+type xenc struct {
+	d   xDesc
+	enc []byte
+}
+
 func genInfos(run *vlib.Run, r *vlib.Rand, tier string) {
+	var xencs []xenc
 	// the remaining P1 subtable kinds, oracle only
 	for k := 0; k < vlib.Count(tier, 300, 6000); k++ {
 		d := genX(r, vlib.Pick(r, []string{"gsub41", "gpos21"}), vlib.Pick(r, []int{3, 10, 40}))
-		line := "!" + vlib.Line(vlib.Atom("sub-enc"), d.sx())
-		impl, fail := subEncX(d)
-		idx := run.Add(line, impl, true, "sub-enc(oracle only)", "sub-enc:"+d.kind)
+		if d.kind == "gsub41" && r.Chance(1, 12) && len(d.ligs) > 0 { // ill-formed: one set missing
+			d.ligs = d.ligs[:len(d.ligs)-1]
+		}
+		line := vlib.Line(vlib.Atom("sub-enc"), d.sx())
+		lb := "sub-enc"
+		if !xModelled[d.kind] {
+			line = "!" + line
+			lb = "sub-enc(oracle only)"
+		}
+		impl, fail, enc := subEncX2(d)
+		idx := run.Add(line, impl, true, lb, "sub-enc:"+d.kind)
 		if fail != "" {
 			run.Fail(idx, line, fail, "c08-subtable-"+d.kind)
+		}
+		if enc != nil && len(enc) < 500 {
+			xencs = append(xencs, xenc{d, enc})
+		}
+	}
+	// the 16-bit limit of the GSUB 4.1 coverage offset: 6 + n*(2+2+6) = 65526 / 65536
+	for _, n := range []int{6552, 6553} {
+		d := xDesc{kind: "gsub41"}
+		for i := 0; i < n; i++ {
+			d.cov = append(d.cov, pair{i, i})
+			d.ligs = append(d.ligs, []ligDesc{{out: i, in: []int{}}})
+		}
+		line := vlib.Line(vlib.Atom("sub-enc"), d.sx())
+		impl, fail, _ := subEncX2(d)
+		idx := run.Add(line, impl, true, "sub-enc", fmt.Sprintf("sub-enc:gsub41-n=%d", n))
+		if fail != "" {
+			run.Fail(idx, line, fail, "c08-subtable-gsub41")
+		}
+	}
+	// readers of the extra kinds on (damaged) encodings
+	for k := 0; k < vlib.Count(tier, 300, 6000) && len(xencs) > 0; k++ {
+		e := vlib.Pick(r, xencs)
+		tbl := "gsub"
+		if e.d.kind[:4] == "gpos" {
+			tbl = "gpos"
+		}
+		_, lt := e.d.table()
+		pre := r.Intn(3)
+		data := append(r.Bytes(pre), e.enc...)
+		lb := "sub-read:valid"
+		if r.Chance(2, 3) {
+			var m []byte
+			m, lb = mutate(r, e.enc)
+			data = append(r.Bytes(pre), m...)
+		}
+		impl, fail, modelled := subRead(tbl, lt, data, pre)
+		line := vlib.Line(vlib.Atom("sub-read"), vlib.Atom(tbl), vlib.Int(lt), vlib.Hex(data), vlib.Int(pre))
+		if !modelled {
+			line = "!" + line
+		}
+		idx := run.Add(line, impl, len(data) >= 8, "sub-read", lb, "sub-read:"+e.d.kind, "sub-read:"+impl[:min(len(impl), 3)])
+		if fail != "" {
+			run.Fail(idx, line, fail, "c08-subtable-read")
 		}
 	}
 	// Gpos2_1 whose pair sets start beyond 65535: must be refused
@@ -721,9 +799,9 @@ func genInfos(run *vlib.Run, r *vlib.Rand, tier string) {
 				d.pairs = append(d.pairs, pairDesc{l, rg, &gtab.GposValueRecord{XAdvance: 1}, nil})
 			}
 		}
-		line := "!" + vlib.Line(vlib.Atom("sub-enc"), d.sx())
-		impl, fail := subEncX(d)
-		idx := run.Add(line, impl, true, "sub-enc(oracle only)", "sub-enc:gpos21-pairset-offset>65535")
+		line := vlib.Line(vlib.Atom("sub-enc"), d.sx())
+		impl, fail, _ := subEncX2(d)
+		idx := run.Add(line, impl, true, "sub-enc", "sub-enc:gpos21-pairset-offset>65535")
 		if fail != "" {
 			run.Fail(idx, line, fail, "c08-subtable-gpos21")
 		}
